@@ -29,6 +29,7 @@ type Case struct {
 	Nontrivial bool        `json:"nontrivial"`            // exercises a non-error path of the modelled core
 	Key        string      `json:"key"`                   // distinctness key
 	Tags       []string    `json:"tags,omitempty"`        // distribution tags (op kinds, error kinds, sizes)
+	Obligation bool        `json:"obligation,omitempty"`  // a failure of this case is an undischarged proof/correspondence obligation (e.g. a source scan), not an observed violation
 }
 
 // Config is what every driver receives.
